@@ -44,6 +44,7 @@ THEOREMS = [
     # ids as texts (caller-supplied ids in any spelling): the look-up chain as harness/extract/c13_idlookup.py reads it
     "Nix.C13.id_lookup_code",
     "Nix.C13.parent_ids_code",
+    "Nix.C13.parent_supplied_code",
     "Nix.C13.parent_source_ids_code",
     "Nix.C13.referring_ids_match",
 ]
@@ -161,6 +162,7 @@ class Impl:
         self.id2key = {}
         self.next = 0
         self.ncopies = 0
+        self.nimports = 0
         self.names = NAMES
         self.p_oid = 0.0     # share of create_section calls that supply the id (set per history by the generators)
 
@@ -375,6 +377,40 @@ class Impl:
             self.next = 2 * n0
             self.ncopies += 1
             return line[1] + n0
+        if op == "import_section":
+            # a tree built in another file (ids supplied by the caller or made by the library there) is copied in
+            # with its ids kept: dest.copy_section(top, children=True, keep_id=True); keys in preorder
+            if line[1] is None:
+                dpath, dest = [], f
+            else:
+                dent, dest = self.get(line[1], ("section",))
+                dpath = dent["path"]
+            other = self.path + ".imp"
+            if os.path.exists(other):
+                os.remove(other)
+            g = self.nixio.File.open(other, self.nixio.FileMode.Overwrite)
+            try:
+                def build(par, node):
+                    kw = {} if node[2] is None else {"oid": node[2]}
+                    sec = par.create_section(node[0], node[1], **kw)
+                    for kid in node[3]:
+                        build(sec, kid)
+                    return sec
+                top = build(g, line[2])
+                dest.copy_section(top, children=True, keep_id=True)
+            finally:
+                g.close()
+                os.remove(other)
+            first = self.next
+
+            def reg(node, path):
+                h = self._nav({"kind": "section", "path": path})
+                self._register("section", path, h)
+                for kid in node[3]:
+                    reg(kid, path + [kid[0]])
+            reg(line[2], dpath + [line[2][0]])
+            self.nimports += 1
+            return first
         if op == "reopen":
             f.close()
             self.cached = {}
@@ -600,6 +636,17 @@ def _gen_op(impl, rng, phase):
         dest = None if rng.random() < 0.3 else some("section")
         return ["copy_section", some("section"), dest, "" if rng.random() < 0.6 else rng.choice(NAMES),
                 rng.random() < 0.75]
+    if r < 0.71 and impl.nimports < 3:
+        def tree(depth):
+            kids = []
+            if depth < 3:
+                for nm in rng.sample(NAMES[:4], rng.choice([0, 0, 1, 1, 2, 3])):
+                    kid = tree(depth + 1)
+                    kid[0] = nm
+                    kids.append(kid)
+            return [rng.choice(NAMES), rng.choice(TYPES), spell_uuid(rng) if rng.random() < 0.8 else None, kids]
+        dest = None if rng.random() < 0.35 else some("section")
+        return ["import_section", dest, tree(1)]
     # ---- queries -------------------------------------------------------------------------
     def sec_via(k, p_cached=0.2, p_md=0.3, p_found=0.15):
         """a handle description for the section k: re-fetched, cached, found, or through a metadata link"""
@@ -755,7 +802,7 @@ def shrink(ctx, lines, idx):
     rounds = 0
     while i >= 0 and rounds < 60:
         op = cand[i][0]
-        if not op.startswith("create") and op != "copy_section":
+        if not op.startswith("create") and op not in ("copy_section", "import_section"):
             t = cand[:i] + cand[i + 1:]
             rounds += 1
             if differs(t):
@@ -777,7 +824,7 @@ def _nontrivial(line, out):
         return bool(v)
     if op == "canon":
         return v != line[1]
-    return op in ("delete", "reopen", "unlink_source", "del_metadata", "parent_block", "copy_section")
+    return op in ("delete", "reopen", "unlink_source", "del_metadata", "parent_block", "copy_section", "import_section")
 
 
 def correspondence(ctx):
